@@ -68,8 +68,24 @@ struct Src {
 };
 
 template <typename T>
+static int kind_through_const(const cocls::future<T> &f) {
+    try {
+        f.value();
+        return 1;
+    } catch (const TestError &) {
+        return 2;
+    } catch (const cocls::await_canceled_exception &) {
+        return 3;
+    } catch (const ConvError &) {
+        return 4;
+    } catch (...) {
+        return 9;
+    }
+}
+template <typename T>
 static void classify_future(cocls::future<T> &f, Probe &p) {
     p.calls++;
+    int const_kind = kind_through_const(f);  // a completion handler may take the future by const reference
     try {
         if constexpr (std::is_void_v<T>) {
             f.value();
@@ -86,6 +102,7 @@ static void classify_future(cocls::future<T> &f, Probe &p) {
     } catch (...) {
         p.kind = 9;
     }
+    if (const_kind != p.kind) p.kind = 90 + const_kind;  // the two views of one resolved future disagree: reported as a wrong delivery
 }
 
 // converters -----------------------------------------------------------------------------------
